@@ -1,14 +1,73 @@
 """What MANIFEST.json claims, per property."""
 HOOK_COMMITS = []
-NOTE = ("Trusted: Lean 4.33 kernel (propext, Classical.choice, Quot.sound only); the hand-written model is tied to "
-        "/repo/src by the sampled correspondence (harness vs compiled model, rebuilt from the working tree each run), "
-        "not by proof; libc/FILE semantics, 32-bit int, LE host assumed.")
+NOTE = ("Trusted: Lean 4.33 kernel (propext, Classical.choice, Quot.sound only; audited with #print axioms on every run); "
+        "the hand-written model (lean/Sbdf/*.lean) is tied to /repo/src by the sampled correspondence (ASan/UBSan harness vs "
+        "compiled model, both rebuilt from the working tree each run), not by proof; generated tables come from the translator; "
+        "libc/FILE semantics, 32-bit int, 64-bit size_t, little-endian host, allocator cap assumed.")
+RUNTIME = (" Runtime part not in the model (heap blocks, free, aliasing, real interleavings) is observed with sanitizers and "
+           "allocator accounting while the correspondence runs; it is sampled, not proved.")
+
 CHECKS = {
+    "C01": dict(category="proof", design_ref="DESIGN.md §6.1",
+                technique="Lean 4 round-trip theorems (Reads composition) + correspondence + independent Python reference oracle",
+                text="Theorems: every reader of the model reads back exactly what the model writer produced, layer by layer (int32, 7-bit, strings, objects packed/unpacked, value arrays of all encodings, column slices, table slices), consuming exactly those bytes in any context; column-metadata folding keeps/refuses exactly the consistent tables. Tie: random tables built through the real API are written and read back by the real library; bytes, statuses and the full dump are compared with the model and with an independent Python reference.",
+                note=NOTE),
+    "C02": dict(category="proof", design_ref="DESIGN.md §6.2",
+                technique="Lean 4 induction over the run-length encoder loop and the bit packer + correspondence",
+                text="Theorems for all arrays: rleExpand(rleEncode es)=es via the loop invariant (runs 1..256 stored as length-1), getValues(createRle o)=o and row count, plain lossless, bit packing = zero/non-zero per element with unpack(pack bs)=bs for every length, default choice, unknown encoding refused. Tie: arrays of all 12 types with steered run structure through sbdf_va_create*/get_values/row_cnt and write+read.",
+                note=NOTE),
+    "C05": dict(category="other", design_ref="DESIGN.md §6.5",
+                technique="Lean 4 NoUB/totality theorems over the model + ASan/UBSan/accounting differential run on hostile corpora",
+                text="PARTIAL. Proved for every byte string: all readers/skippers/decoders are total; no ghost check fails (no shift >= 32, no overflowing sz*count, v*sizeof(void*), run-length expansion fills exactly the row count, bit decode stays inside the packed buffer); only documented statuses. Observed, not proved: heap discipline of the C error paths (double free, use after free, leaks, output arguments), on field-aware mutations and unstructured bytes under ASan/UBSan with live-block accounting." ,
+                note=NOTE + RUNTIME),
+    "C06": dict(category="proof", design_ref="DESIGN.md §6.6",
+                technique="Lean 4: Stable predicate for every reader (closed under bind) => prefix theorem; correspondence on every cut offset",
+                text="Theorem truncated_never_complete: for every file whose full read reaches end-of-table at its end and every strict prefix, any column subset: the prefix run ends in an error, never reports end-of-table, and the metadata/slices returned before are those of the full file. From Stable (success on a truncated stream implies the same success on the full stream) proved for all 30 readers. Tie: every byte offset of generated and sample files through the real readers.",
+                note=NOTE),
+    "C10": dict(category="proof", design_ref="DESIGN.md §6.10",
+                technique="Lean 4 invariants + algebraic laws over the metadata model, all histories by induction + correspondence on histories",
+                text="Theorems: check order and statuses of add; add appends (insertion order), get/get_dflt/exists/cnt after add, frame for other names; remove gone/idempotent; copy all-or-none and clash status; invariant (unique C-string names, singleton values, default of same type) preserved by every history; frozen collections reject every mutator and stay unchanged; table metadata and reader output frozen. Tie: random and exhaustive-small histories through the real API.",
+                note=NOTE),
+    "C11": dict(category="proof", design_ref="DESIGN.md §6.11",
+                technique="Lean 4 invariants over column-slice histories + ghost arithmetic of the capacity growth + correspondence",
+                text="Theorems: addition accepted iff row counts agree and name new; accepted => appended and retrievable at the slot it filled (identity), earlier slots unchanged; rejected => status, nothing changes; invariant for all histories; slices read from a stream have exactly the metadata's column count; capacity_safe: realloc-when-full pattern keeps allocated = calcCap(count) so index count is in bounds (calcCap tied to the compiled function by a regenerated table). Tie: histories up to 300 additions, pointer identity via sbdf_cs_get_property.",
+                note=NOTE),
+    "C13": dict(category="proof", design_ref="DESIGN.md §6.13",
+                technique="Lean 4 generic emit lemmas instantiated on every writer entry point + fault injection at every byte offset",
+                text="Theorems: every fwrite call site of every model writer reports a short write (Sound); OK => all bytes accepted; budget < bytes => non-OK; accepted bytes are a prefix; table_write_faults: for every representable table and every offset below its length the call in progress and every later call (header, metadata, slices, end marker) fail. Leak clause observed only. Tie: fwrite shim refusing bytes from every offset of generated tables.",
+                note=NOTE + RUNTIME),
+    "C15": dict(category="proof", design_ref="DESIGN.md §6.15",
+                technique="Lean 4 list induction (lexicographic order laws, equality iff) + exhaustive small-alphabet correspondence",
+                text="Theorems: sbdf_str_cmp/sbdf_ba_memcmp = lexicographic unsigned byte order with proper prefix first; zero iff equal; antisymmetric; transitive; sbdf_obj_eq true iff equal on well-formed objects, hence reflexive/symmetric/transitive; C-string view facts. Tie: all pairs over {00,01,7f,80,ff} up to the bound + random, objects of all types.",
+                note=NOTE),
     "C16": dict(category="proof", design_ref="DESIGN.md §6.16",
                 technique="Lean 4 theorems (induction over the group loop) + digest correspondence over numeric ranges",
-                text="Theorems for all 32-bit values: 7-bit read(write n)=n consuming exactly the groups, length = sbdf_get_7bitpacked_len for 0<=n<2^31 (1..5), group layout, reader never shifts out of range and refuses a continuation bit on the fifth byte, int32 write/read round trip and byte order, byte-size header = sum(len7 l + l). Model tied to the code by hashing the canonical output of every value in whole ranges (quick: all n < 2^22 + neighbourhoods of every power of two + strided samples; thorough: all 2^32).",
+                text="Theorems for all 32-bit values: 7-bit read(write n)=n consuming exactly the groups, length = sbdf_get_7bitpacked_len for 0<=n<2^31 (1..5), group layout, reader never shifts out of range and refuses a continuation bit on the fifth byte, int32 write/read round trip and byte order, byte-size header = sum(len7 l + l). Tie: hash of the canonical output of every value in whole ranges (quick: all n < 2^22 + neighbourhoods + strided samples; thorough: all 2^32).",
+                note=NOTE),
+    "C18": dict(category="other", design_ref="DESIGN.md §6.18",
+                technique="Lean 4 non-interference theorem + decide over regenerated global-access/symbol tables; ThreadSanitizer runs",
+                text="PARTIAL. Proved: threads over immutable shared data and private state get their sequential results under every schedule; decided on the regenerated tables: every reference to every static-storage variable is a read or const-argument, no static locals, data symbols accounted for, externals re-entrant. Observed: 8 threads x mixed workloads under TSan with per-line results equal to the sequential model. Data-race freedom of the C code itself is not proved.",
+                note=NOTE + RUNTIME),
+    "C19": dict(category="proof", design_ref="DESIGN.md §6.19",
+                technique="Lean 4 list induction + decide over all 256 byte values + exhaustive short-string correspondence under ASan",
+                text="Theorems: size-only result = bytes written (both converters, all inputs); neither converter reads past the terminator on any byte string (malformed/truncated included) and both terminate; ISO-8859-1 -> UTF-8 -> ISO-8859-1 is the identity on NUL-free strings; intermediate UTF-8 well formed; undecodable combinations give 0x1A. Tie: all strings of length 1-2 over 1..255, random long ones biased to trailing lead bytes, exactly-sized heap buffers under ASan.",
+                note=NOTE),
+    "C20": dict(category="proof", design_ref="DESIGN.md §6.20",
+                technique="Lean 4 decide over the external symbol surface regenerated from the working tree (nm, asm scan, clang AST)",
+                text="Theorems re-proved on every run over the regenerated surface: every undefined external symbol of every object is in the passive family (memory/string helpers, argument-stream I/O), no inline asm, no indirect calls by the library; trace theorem: any call trace over the surface only has heap/argument-memory/argument-stream effects. Decided for the whole library at once, as the property's quantifier says.",
                 note=NOTE),
 }
+LATER = {k: CHECKS.pop(k) for k in ["C01"]}
 _ALL = ["C%02d" % i for i in range(1, 21)]
-NOT_APPLICABLE = [{"property_id": p, "reason": "check under construction in this session (model exists; theorems and tie not yet registered)"}
-                  for p in _ALL if p not in CHECKS]
+_PENDING = {
+    "C01": "theorems under construction (Reads composition for the whole file); correspondence check exists and passes",
+    "C03": "theorems under construction (model writer = declarative spec); correspondence check exists and passes",
+    "C04": "theorems under construction (reader decodes every reference layout); correspondence check exists and passes",
+    "C07": "theorems under construction (Reads for skip and subset); correspondence check exists and passes",
+    "C08": "theorems under construction (rewrite identity); correspondence check exists and passes",
+    "C09": "theorems under construction (decision theorems per validation site); correspondence check exists and passes",
+    "C12": "theorems under construction (ownership protocol); correspondence check exists and passes",
+    "C14": "theorems under construction (frame under allocation faults); fault enumeration exists and passes",
+    "C17": "theorems under construction (byte-order mirror); correspondence check exists and passes",
+}
+NOT_APPLICABLE = [{"property_id": p, "reason": "not claimed yet: " + _PENDING[p]} for p in _ALL if p not in CHECKS]
